@@ -18,6 +18,7 @@ package bgp
 import (
 	"encoding/binary"
 	"fmt"
+	"net/netip"
 )
 
 type vcSer struct {
@@ -250,6 +251,410 @@ func vcHistoryOracle(o *vOut, r *vRand) {
 					fail(vcHistClass(false, q1, fresh3), map[string]any{"scenario": "decode-" + what3 + "-serialize", "opts": fmt.Sprint(opA),
 						"second_len": len(q1.b), "second_err": q1.err, "fresh_len": len(fresh3.b), "fresh_err": fresh3.err})
 				}
+			}
+		}
+	}
+}
+
+// ---------------------------------------------------------------- one level down: composite objects
+//
+// Every composite codec object that caches a length: build it with its constructor, Serialize, edit
+// it in place (add / remove / replace an element), Serialize again, and compare with Serialize of a
+// freshly constructed equal value; the second result must also re-parse.  Both "built" and
+// "decoded from the wire" objects are taken through the edit.
+// Class of a failure: history:<kind>-len-cached.
+
+type vcComp struct {
+	kind   string
+	build  func() any
+	mutate func(x any) bool                // in-place edit; false = not applicable
+	fresh  func() any                      // freshly constructed value equal to the edited one
+	ser    func(x any) ([]byte, error)     // the object's own Serialize
+	decode func(b []byte) (any, error)     // the object's own decoder (nil: no decoded variant)
+}
+
+func vcSerAttr(x any) ([]byte, error) { return x.(PathAttributeInterface).Serialize() }
+
+// vcNormAttr: an attribute's octets up to the choice of the extended-length form, which follows the
+// attribute's Flags (kept as received / as first built - a valid encoding, not a length cache): flags
+// without the extended-length bit, type, value; "misframed" when the declared length is not the value's.
+func vcNormAttr(b []byte) string {
+	if len(b) < 3 {
+		return "short"
+	}
+	hdr, l := 3, int(b[2])
+	if b[0]&0x10 != 0 {
+		if len(b) < 4 {
+			return "short"
+		}
+		hdr, l = 4, int(binary.BigEndian.Uint16(b[2:4]))
+	}
+	if len(b)-hdr != l {
+		return "misframed"
+	}
+	return fmt.Sprintf("%02x%02x:%x", b[0]&^0x10, b[1], b[hdr:])
+}
+func vcDecAttr(b []byte) (any, error) {
+	p, err := GetPathAttribute(b)
+	if err != nil {
+		return nil, err
+	}
+	return p, p.DecodeFromBytes(b)
+}
+func vcSerCap(x any) ([]byte, error) { return x.(ParameterCapabilityInterface).Serialize() }
+func vcDecCap(b []byte) (any, error)  { return DecodeCapability(b) }
+
+func vcSerOpenBody(x any) ([]byte, error) { return x.(*BGPOpen).Serialize() }
+func vcDecOpenBody(b []byte) (any, error) {
+	o := &BGPOpen{}
+	return o, o.DecodeFromBytes(b)
+}
+func vcMkOpen(params ...OptionParameterInterface) *BGPOpen {
+	m, _ := NewBGPOpenMessage(65000, 90, netip.MustParseAddr("192.0.2.1"), params)
+	return m.Body.(*BGPOpen)
+}
+
+func vcCompCases(r *vRand) []vcComp {
+	var cs []vcComp
+	mp4, mp6, rr, as4 := func() ParameterCapabilityInterface { return NewCapMultiProtocol(RF_IPv4_UC) },
+		func() ParameterCapabilityInterface { return NewCapMultiProtocol(RF_IPv6_UC) },
+		func() ParameterCapabilityInterface { return NewCapRouteRefresh() },
+		func() ParameterCapabilityInterface { return NewCapFourOctetASNumber(4200000000) }
+	capParam := func(x any) *OptionParameterCapability { return x.(*BGPOpen).OptParams[0].(*OptionParameterCapability) }
+	// --- OPEN optional parameter carrying capabilities: remove / add / replace a capability
+	cs = append(cs,
+		vcComp{kind: "open-param", build: func() any { return vcMkOpen(NewOptionParameterCapability([]ParameterCapabilityInterface{mp4(), rr(), as4()})) },
+			mutate: func(x any) bool { p := capParam(x); p.Capability = p.Capability[:2]; return true },
+			fresh:  func() any { return vcMkOpen(NewOptionParameterCapability([]ParameterCapabilityInterface{mp4(), rr()})) },
+			ser:    vcSerOpenBody, decode: vcDecOpenBody},
+		vcComp{kind: "open-param", build: func() any { return vcMkOpen(NewOptionParameterCapability([]ParameterCapabilityInterface{mp4(), rr()})) },
+			mutate: func(x any) bool { p := capParam(x); p.Capability = append(p.Capability, as4(), mp6()); return true },
+			fresh:  func() any { return vcMkOpen(NewOptionParameterCapability([]ParameterCapabilityInterface{mp4(), rr(), as4(), mp6()})) },
+			ser:    vcSerOpenBody, decode: vcDecOpenBody},
+		vcComp{kind: "open-param", build: func() any { return vcMkOpen(NewOptionParameterCapability([]ParameterCapabilityInterface{mp4(), as4()})) },
+			mutate: func(x any) bool { p := capParam(x); p.Capability[1] = rr(); return true },
+			fresh:  func() any { return vcMkOpen(NewOptionParameterCapability([]ParameterCapabilityInterface{mp4(), rr()})) },
+			ser:    vcSerOpenBody, decode: vcDecOpenBody},
+		// a whole parameter removed / added
+		vcComp{kind: "open-params", build: func() any {
+			return vcMkOpen(NewOptionParameterCapability([]ParameterCapabilityInterface{mp4()}), NewOptionParameterCapability([]ParameterCapabilityInterface{as4()}))
+		},
+			mutate: func(x any) bool { o := x.(*BGPOpen); o.OptParams = o.OptParams[:1]; return true },
+			fresh:  func() any { return vcMkOpen(NewOptionParameterCapability([]ParameterCapabilityInterface{mp4()})) },
+			ser:    vcSerOpenBody, decode: vcDecOpenBody},
+		// an optional parameter of unknown type whose value is edited
+		vcComp{kind: "open-param-unknown", build: func() any { return vcMkOpen(&OptionParameterUnknown{ParamType: 9, Value: []byte{1, 2, 3, 4}}) },
+			mutate: func(x any) bool {
+				p := x.(*BGPOpen).OptParams[0].(*OptionParameterUnknown)
+				p.Value = p.Value[:2]
+				return true
+			},
+			fresh: func() any { return vcMkOpen(&OptionParameterUnknown{ParamType: 9, Value: []byte{1, 2}}) },
+			ser:   vcSerOpenBody, decode: vcDecOpenBody},
+	)
+	// --- capabilities with tuple lists: add / remove a tuple
+	grT := func(n int) []*CapGracefulRestartTuple {
+		var l []*CapGracefulRestartTuple
+		for i := 0; i < n; i++ {
+			l = append(l, NewCapGracefulRestartTuple([]Family{RF_IPv4_UC, RF_IPv6_UC, RF_EVPN}[i%3], i%2 == 0))
+		}
+		return l
+	}
+	llT := func(n int) []*CapLongLivedGracefulRestartTuple {
+		var l []*CapLongLivedGracefulRestartTuple
+		for i := 0; i < n; i++ {
+			l = append(l, NewCapLongLivedGracefulRestartTuple([]Family{RF_IPv4_UC, RF_IPv6_UC, RF_EVPN}[i%3], i%2 == 0, uint32(100+i)))
+		}
+		return l
+	}
+	apT := func(n int) []*CapAddPathTuple {
+		var l []*CapAddPathTuple
+		for i := 0; i < n; i++ {
+			l = append(l, NewCapAddPathTuple([]Family{RF_IPv4_UC, RF_IPv6_UC, RF_EVPN}[i%3], BGPAddPathMode(1+i%3)))
+		}
+		return l
+	}
+	enT := func(n int) []*CapExtendedNexthopTuple {
+		var l []*CapExtendedNexthopTuple
+		for i := 0; i < n; i++ {
+			l = append(l, NewCapExtendedNexthopTuple([]Family{RF_IPv4_UC, RF_IPv4_VPN, RF_IPv4_MPLS}[i%3], AFI_IP6))
+		}
+		return l
+	}
+	for _, d := range []struct{ from, to int }{{3, 1}, {1, 3}, {2, 2}} {
+		d := d
+		cs = append(cs,
+			vcComp{kind: "cap-gr", build: func() any { return NewCapGracefulRestart(true, false, 120, grT(d.from)) },
+				mutate: func(x any) bool { x.(*CapGracefulRestart).Tuples = grT(d.to); return true },
+				fresh:  func() any { return NewCapGracefulRestart(true, false, 120, grT(d.to)) }, ser: vcSerCap, decode: vcDecCap},
+			vcComp{kind: "cap-llgr", build: func() any { return NewCapLongLivedGracefulRestart(llT(d.from)) },
+				mutate: func(x any) bool { x.(*CapLongLivedGracefulRestart).Tuples = llT(d.to); return true },
+				fresh:  func() any { return NewCapLongLivedGracefulRestart(llT(d.to)) }, ser: vcSerCap, decode: vcDecCap},
+			vcComp{kind: "cap-addpath", build: func() any { return NewCapAddPath(apT(d.from)) },
+				mutate: func(x any) bool { x.(*CapAddPath).Tuples = apT(d.to); return true },
+				fresh:  func() any { return NewCapAddPath(apT(d.to)) }, ser: vcSerCap, decode: vcDecCap},
+			vcComp{kind: "cap-extnexthop", build: func() any { return NewCapExtendedNexthop(enT(d.from)) },
+				mutate: func(x any) bool { x.(*CapExtendedNexthop).Tuples = enT(d.to); return true },
+				fresh:  func() any { return NewCapExtendedNexthop(enT(d.to)) }, ser: vcSerCap, decode: vcDecCap},
+		)
+	}
+	// --- path attributes with a cached Length: add / remove an element (sizes cross 255 sometimes)
+	u32s := func(n int) []uint32 {
+		l := make([]uint32, n)
+		for i := range l {
+			l[i] = uint32(65000<<16 | i)
+		}
+		return l
+	}
+	segs := func(n int) []AsPathParamInterface {
+		var l []AsPathParamInterface
+		for i := 0; i < n; i++ {
+			l = append(l, NewAs4PathParam(uint8(1+i%2), []uint32{65000 + uint32(i), 4200000000}))
+		}
+		return l
+	}
+	lcs := func(n int) []*LargeCommunity {
+		var l []*LargeCommunity
+		for i := 0; i < n; i++ {
+			l = append(l, NewLargeCommunity(4200000000, uint32(i), 7))
+		}
+		return l
+	}
+	ecs := func(n int) []ExtendedCommunityInterface {
+		var l []ExtendedCommunityInterface
+		for i := 0; i < n; i++ {
+			l = append(l, NewTwoOctetAsSpecificExtended(EC_SUBTYPE_ROUTE_TARGET, 65000, uint32(i), true))
+		}
+		return l
+	}
+	cl := func(n int) []netip.Addr {
+		var l []netip.Addr
+		for i := 0; i < n; i++ {
+			l = append(l, netip.AddrFrom4([4]byte{10, 0, byte(i >> 8), byte(i)}))
+		}
+		return l
+	}
+	nl4 := func(n int) []PathNLRI {
+		var l []PathNLRI
+		for i := 0; i < n; i++ {
+			p, _ := NewIPAddrPrefix(netip.PrefixFrom(netip.AddrFrom4([4]byte{10, byte(i >> 8), byte(i), 0}), 24))
+			l = append(l, PathNLRI{NLRI: p})
+		}
+		return l
+	}
+	subs := func(n int) []TunnelEncapSubTLVInterface {
+		var l []TunnelEncapSubTLVInterface
+		for i := 0; i < n; i++ {
+			l = append(l, NewTunnelEncapSubTLVColor(uint32(i+1)), NewTunnelEncapSubTLVUnknown(100, make([]byte, 20)))
+		}
+		return l
+	}
+	tlvs := func(n, m int) []*TunnelEncapTLV {
+		var l []*TunnelEncapTLV
+		for i := 0; i < n; i++ {
+			l = append(l, NewTunnelEncapTLV(TUNNEL_TYPE_VXLAN, subs(m)))
+		}
+		return l
+	}
+	aig := func(n int) []AigpTLVInterface {
+		l := []AigpTLVInterface{NewAigpTLVIgpMetric(77)}
+		for i := 0; i < n; i++ {
+			l = append(l, NewAigpTLVDefault(39, make([]byte, 10+i)))
+		}
+		return l
+	}
+	psid := func(n int) []PrefixSIDTLVInterface {
+		var l []PrefixSIDTLVInterface
+		for i := 0; i < n; i++ {
+			l = append(l, NewSRv6ServiceTLV(TLVTypeSRv6L3Service, NewSRv6InformationSubTLV(netip.MustParseAddr("2001:db8::1"), END_DT4)))
+		}
+		return l
+	}
+	for _, d := range []struct{ from, to int }{{3, 1}, {1, 3}, {70, 10}, {10, 70}, {2, 0}} {
+		d := d
+		cs = append(cs,
+			vcComp{kind: "attr-communities", build: func() any { return NewPathAttributeCommunities(u32s(d.from)) },
+				mutate: func(x any) bool { x.(*PathAttributeCommunities).Value = u32s(d.to); return true },
+				fresh:  func() any { return NewPathAttributeCommunities(u32s(d.to)) }, ser: vcSerAttr, decode: vcDecAttr},
+			vcComp{kind: "attr-aspath", build: func() any { return NewPathAttributeAsPath(segs(d.from)) },
+				mutate: func(x any) bool { x.(*PathAttributeAsPath).Value = segs(d.to); return true },
+				fresh:  func() any { return NewPathAttributeAsPath(segs(d.to)) }, ser: vcSerAttr, decode: vcDecAttr},
+			vcComp{kind: "attr-large-communities", build: func() any { return NewPathAttributeLargeCommunities(lcs(d.from)) },
+				mutate: func(x any) bool { x.(*PathAttributeLargeCommunities).Values = lcs(d.to); return true },
+				fresh:  func() any { return NewPathAttributeLargeCommunities(lcs(d.to)) }, ser: vcSerAttr, decode: vcDecAttr},
+			vcComp{kind: "attr-ext-communities", build: func() any { return NewPathAttributeExtendedCommunities(ecs(d.from)) },
+				mutate: func(x any) bool { x.(*PathAttributeExtendedCommunities).Value = ecs(d.to); return true },
+				fresh:  func() any { return NewPathAttributeExtendedCommunities(ecs(d.to)) }, ser: vcSerAttr, decode: vcDecAttr},
+			vcComp{kind: "attr-cluster-list", build: func() any { a, _ := NewPathAttributeClusterList(cl(d.from)); return a },
+				mutate: func(x any) bool { x.(*PathAttributeClusterList).Value = cl(d.to); return true },
+				fresh:  func() any { a, _ := NewPathAttributeClusterList(cl(d.to)); return a }, ser: vcSerAttr, decode: vcDecAttr},
+			vcComp{kind: "attr-mp-unreach", build: func() any { a, _ := NewPathAttributeMpUnreachNLRI(RF_IPv4_UC, nl4(d.from)); return a },
+				mutate: func(x any) bool { x.(*PathAttributeMpUnreachNLRI).Value = nl4(d.to); return true },
+				fresh:  func() any { a, _ := NewPathAttributeMpUnreachNLRI(RF_IPv4_UC, nl4(d.to)); return a }, ser: vcSerAttr, decode: vcDecAttr},
+			vcComp{kind: "attr-aigp", build: func() any { return NewPathAttributeAigp(aig(d.from % 5)) },
+				mutate: func(x any) bool { x.(*PathAttributeAigp).Values = aig(d.to % 5); return true },
+				fresh:  func() any { return NewPathAttributeAigp(aig(d.to % 5)) }, ser: vcSerAttr, decode: vcDecAttr},
+		)
+		if d.to > 0 {
+			cs = append(cs,
+				vcComp{kind: "attr-mp-reach", build: func() any {
+					a, _ := NewPathAttributeMpReachNLRI(RF_IPv4_UC, nl4(max(d.from, 1)), netip.MustParseAddr("192.0.2.1"))
+					return a
+				},
+					mutate: func(x any) bool { x.(*PathAttributeMpReachNLRI).Value = nl4(d.to); return true },
+					fresh: func() any {
+						a, _ := NewPathAttributeMpReachNLRI(RF_IPv4_UC, nl4(d.to), netip.MustParseAddr("192.0.2.1"))
+						return a
+					}, ser: vcSerAttr, decode: vcDecAttr},
+				vcComp{kind: "attr-tunnel-encap", build: func() any { return NewPathAttributeTunnelEncap(tlvs(1+d.from%4, 2)) },
+					mutate: func(x any) bool { x.(*PathAttributeTunnelEncap).Value = tlvs(1+d.to%4, 2); return true },
+					fresh:  func() any { return NewPathAttributeTunnelEncap(tlvs(1+d.to%4, 2)) }, ser: vcSerAttr, decode: vcDecAttr},
+				// a sub-TLV added to / removed from a TLV that stays in place (TunnelEncapTLV.Length cache)
+				vcComp{kind: "attr-tunnel-encap-subtlv", build: func() any { return NewPathAttributeTunnelEncap(tlvs(1, 1+d.from%5)) },
+					mutate: func(x any) bool { x.(*PathAttributeTunnelEncap).Value[0].Value = subs(1 + d.to%5); return true },
+					fresh:  func() any { return NewPathAttributeTunnelEncap(tlvs(1, 1+d.to%5)) }, ser: vcSerAttr, decode: vcDecAttr},
+				vcComp{kind: "attr-prefix-sid", build: func() any { return NewPathAttributePrefixSID(psid(1 + d.from%3)...) },
+					mutate: func(x any) bool { x.(*PathAttributePrefixSID).TLVs = psid(1 + d.to%3); return true },
+					fresh:  func() any { return NewPathAttributePrefixSID(psid(1 + d.to%3)...) }, ser: vcSerAttr, decode: vcDecAttr},
+			)
+		}
+	}
+	// BGP-LS attribute: a TLV added / removed
+	lsA := func(withName bool) *LsAttribute {
+		b := []byte{1, 2, 3, 4, 5}
+		a := &LsAttribute{Node: LsAttributeNode{Opaque: &b}}
+		if withName {
+			s := "router-with-a-long-name"
+			a.Node.Name = &s
+		}
+		return a
+	}
+	for _, w := range []bool{true, false} {
+		w := w
+		cs = append(cs, vcComp{kind: "attr-ls", build: func() any { a, _ := vC04LsAttr(lsA(w)); return a },
+			mutate: func(x any) bool { x.(*PathAttributeLs).TLVs = NewLsAttributeTLVs(lsA(!w)); return true },
+			fresh:  func() any { a, _ := vC04LsAttr(lsA(!w)); return a }, ser: vcSerAttr, decode: vcDecAttr})
+	}
+	// --- NLRI with cached lengths
+	rd := NewRouteDistinguisherTwoOctetAS(65000, 1)
+	serN := func(x any) ([]byte, error) { return x.(NLRI).Serialize() }
+	decN := func(f Family) func(b []byte) (any, error) {
+		return func(b []byte) (any, error) { return NLRIFromSlice(f, b) }
+	}
+	evpn2 := func(ip string, labels ...uint32) any {
+		n, _ := NewEVPNMacIPAdvertisementRoute(rd, EthernetSegmentIdentifier{}, 7, "02:00:00:00:00:01", netip.MustParseAddr(ip), labels)
+		return n
+	}
+	cs = append(cs,
+		vcComp{kind: "evpn-nlri", build: func() any { return evpn2("192.0.2.1", 100) },
+			mutate: func(x any) bool {
+				er := x.(*EVPNNLRI).RouteTypeData.(*EVPNMacIPAdvertisementRoute)
+				er.Labels = append(er.Labels, 200)
+				return true
+			},
+			fresh: func() any { return evpn2("192.0.2.1", 100, 200) }, ser: serN, decode: decN(RF_EVPN)},
+		vcComp{kind: "evpn-nlri", build: func() any { return evpn2("192.0.2.1", 100) },
+			mutate: func(x any) bool {
+				er := x.(*EVPNNLRI).RouteTypeData.(*EVPNMacIPAdvertisementRoute)
+				er.IPAddress = netip.MustParseAddr("2001:db8::1")
+				er.IPAddressLength = 128
+				return true
+			},
+			fresh: func() any { return evpn2("2001:db8::1", 100) }, ser: serN, decode: decN(RF_EVPN)},
+	)
+	fsOf := func(n int) any {
+		x, _ := vcFSOfBody(RF_FS_IPv4_UC, n)
+		return x
+	}
+	for _, d := range []struct{ from, to int }{{242, 40}, {40, 242}, {238, 240}, {241, 239}} {
+		d := d
+		cs = append(cs, vcComp{kind: "flowspec-nlri", build: func() any { return fsOf(d.from) },
+			mutate: func(x any) bool {
+				t, ok := fsOf(d.to).(*FlowSpecNLRI)
+				if !ok {
+					return false
+				}
+				x.(*FlowSpecNLRI).Value = t.Value
+				return true
+			},
+			fresh: func() any { return fsOf(d.to) }, ser: serN, decode: decN(RF_FS_IPv4_UC)})
+	}
+	lab := func(labels ...uint32) any {
+		n, _ := NewLabeledVPNIPAddrPrefix(netip.MustParsePrefix("10.1.2.0/24"), *NewMPLSLabelStack(labels...), rd)
+		return n
+	}
+	cs = append(cs, vcComp{kind: "labelled-nlri", build: func() any { return lab(100) },
+		mutate: func(x any) bool { l := x.(*LabeledVPNIPAddrPrefix); l.Labels.Labels = append(l.Labels.Labels, 200, 300); return true },
+		fresh:  func() any { return lab(100, 200, 300) }, ser: serN, decode: decN(RF_IPv4_VPN)})
+	return cs
+}
+
+func vcCompositeHistory(o *vOut, r *vRand) {
+	seen := map[string]bool{}
+	fail := func(class string, detail map[string]any) {
+		if !seen[class] {
+			seen[class] = true
+			o.fail(class, detail)
+		}
+	}
+	for _, c := range vcCompCases(r) {
+		c := c
+		for _, decodedFirst := range []bool{false, true} {
+			decodedFirst := decodedFirst
+			if decodedFirst && c.decode == nil {
+				continue
+			}
+			class := "history:" + c.kind + "-len-cached"
+			det := map[string]any{"kind": c.kind, "decoded_first": decodedFirst}
+			if p := vcTry(func() {
+				x := c.build()
+				if x == nil || vC04IsNil(x) {
+					return
+				}
+				b1, err := c.ser(x)
+				if err != nil {
+					return
+				}
+				if decodedFirst {
+					y, err := c.decode(b1)
+					if err != nil {
+						return
+					}
+					x = y
+				}
+				if !c.mutate(x) {
+					return
+				}
+				b2, err2 := c.ser(x)
+				f := c.fresh()
+				if f == nil || vC04IsNil(f) {
+					return
+				}
+				bf, errf := c.ser(f)
+				o.stat("history_composite:"+c.kind, 1)
+				det["first"], det["second"], det["fresh"] = vcHex(b1), vcHex(b2), vcHex(bf)
+				same := string(b2) == string(bf)
+				if !same && err2 == nil && errf == nil && len(b2) > 1 && len(bf) > 1 {
+					if _, isAttr := x.(PathAttributeInterface); isAttr {
+						same = vcNormAttr(b2) == vcNormAttr(bf) && vcNormAttr(b2) != "misframed" && vcNormAttr(b2) != "short"
+						if same {
+							o.stat("history_composite_extended_length_form_kept", 1)
+						}
+					}
+				}
+				if (err2 != nil) != (errf != nil) || !same {
+					fail(class, det)
+					return
+				}
+				if err2 == nil && c.decode != nil {
+					if _, err := c.decode(b2); err != nil {
+						det["err"] = err.Error()
+						fail(class, det)
+					}
+				}
+			}); p != "" {
+				det["panic"] = p
+				fail("history:"+c.kind+"-panic", det)
 			}
 		}
 	}
